@@ -5,6 +5,7 @@
 //                       <cprm: eps_strong relax|- over_interp|- do_trunc eps_trunc> <rprm: damping>
 //                       A  <nscript>  (dump | apply f x0 | cycle f x0 | rebuild A')*
 // output: results of the script commands joined by " ; ".
+#include "poison_new.hpp"
 #include "vq_io.hpp"
 #include "vq_access.hpp"
 #include <amgcl/amg.hpp>
@@ -20,7 +21,12 @@
 #include <amgcl/relaxation/chebyshev.hpp>
 
 using vq::Q; using vq::Tok; using vq::show;
-typedef amgcl::backend::builtin<Q> Backend;
+#ifndef VQ_VALUE
+#define VQ_VALUE vq::Q
+#endif
+typedef VQ_VALUE V;
+typedef amgcl::backend::builtin<V> Backend;
+static inline V to_V(const std::string &s) { return (V)vq::parse(s); }
 
 struct Cfg {
     long coarse_enough, direct_coarse, max_levels, npre, npost, ncycle, pre_cycles;
@@ -46,11 +52,11 @@ template <class B> void set_cprm(typename amgcl::coarsening::ruge_stuben<B>::par
 }
 template <class P> void set_rprm(P &, const Cfg &, ...) {}
 inline void set_rprm(amgcl::relaxation::damped_jacobi<Backend>::params &p, const Cfg &c, int) {
-    if (c.damping != "-") p.damping = vq::parse(c.damping);
+    if (c.damping != "-") p.damping = to_V(c.damping);
 }
 inline void set_rprm(amgcl::relaxation::gauss_seidel<Backend>::params &p, const Cfg &, int) { p.serial = true; }
 inline void set_rprm(amgcl::relaxation::ilu0<Backend>::params &p, const Cfg &c, int) {
-    if (c.damping != "-") p.damping = vq::parse(c.damping);
+    if (c.damping != "-") p.damping = to_V(c.damping);
     p.solve.serial = true;
 }
 
@@ -62,7 +68,7 @@ std::string run_amg(Tok &t) {
     c.npre = t.i(); c.npost = t.i(); c.ncycle = t.i(); c.pre_cycles = t.i();
     c.eps_strong = t.s(); c.relax = t.s(); c.over_interp = t.s(); c.do_trunc = t.s(); c.eps_trunc = t.s();
     c.damping = t.s();
-    auto A = t.crs();
+    auto A = t.crsT<V>();
     typename AMG::params prm;
     prm.coarse_enough = c.coarse_enough; prm.direct_coarse = c.direct_coarse != 0;
     prm.max_levels = c.max_levels; prm.npre = c.npre; prm.npost = c.npost; prm.ncycle = c.ncycle;
@@ -90,13 +96,13 @@ std::string run_amg(Tok &t) {
                 else { os << " L " << vq::show_crs(*l.A); }
             }
         } else if (cmd == "apply") {
-            auto f = t.vec(); auto x = t.vec();
+            auto f = t.vecT<V>(); auto x = t.vecT<V>();
             amg.apply(f, x); os << show(x);
         } else if (cmd == "cycle") {
-            auto f = t.vec(); auto x = t.vec();
+            auto f = t.vecT<V>(); auto x = t.vecT<V>();
             amg.cycle(f, x); os << show(x);
         } else if (cmd == "rebuild") {
-            auto A2 = t.crs();
+            auto A2 = t.crsT<V>();
             size_t n2 = A2->nrows;
             auto M2 = std::make_tuple(n2,
                 amgcl::make_iterator_range(A2->ptr, A2->ptr + n2 + 1),
